@@ -1,12 +1,12 @@
-\* thorough: 3 callers
+\* thorough: 3 callers, right answers in any order or none (timeouts), all interleavings
 CONSTANTS
   Callers = {1, 2, 3}
   MaxCalls = 1
   IdSeed = 3
   IdMax = 4
   UnsolIds = {0}
-  MaxExtra = 1
-  Kinds = {"ok", "wrong", "fault"}
+  MaxExtra = 0
+  Kinds = {"ok"}
   WithRenew = FALSE
   Timed = FALSE
   T = 2
